@@ -2,6 +2,12 @@ import OjgVerif.Reflect.RegLemmas
 import OjgVerif.Gen.Reflect
 /-! # C16 — Recompose is independent of the history (PARTIAL: registry logic on a model)
 
+In one sentence: the title clause (Decompose/Recompose and Marshal/Unmarshal are inverse on values) is
+NOT proved here, only run; what is proved is the history clause, and only for target types WITHOUT an
+`interface{}` slot (`noIface`) — which excludes exactly the case where a create-key name in the data
+is resolved against the registry, the one place where the history matters by design. Recursive struct
+types are not values of `GoType` (a finite tree).
+
 Go types are data; `Reflect/Registry.lean` models `alt/recomposer.go` (`registerComposer`,
 `indexType`, `recomp`, `setValue`, `recompAny`) with the registry keyed as the code keys it: bare
 type name AND `pkgpath/name`. The flag `bareName` of the model is `false` for the code as it is NOW
